@@ -110,6 +110,37 @@ func randomChooser(rnd *rand.Rand, c runCfg, l lockerAPI, steps int, multiBias i
 			}
 			return actT{T: ret[rnd.Intn(len(ret))]}, true
 		}
+		mkCall := func(t int) actT {
+			a := actT{Call: true, T: t, Write: rnd.Intn(100) < 55}
+			if l.HasMulti() && rnd.Intn(100) < multiBias {
+				a.Multi = true
+				n := 2 + rnd.Intn(nk-1)
+				if n > nk {
+					n = nk
+				}
+				perm := rnd.Perm(nk)[:n]
+				if c.Ordered {
+					sort.Ints(perm)
+				}
+				a.Keys = append([]int{}, perm...)
+			} else {
+				a.Keys = []int{rnd.Intn(nk)}
+			}
+			return a
+		}
+		// a burst: two or three callers enter at once and race (registration sections and lock steps interleave)
+		if len(idle) >= 2 && rnd.Intn(100) < 18 {
+			n := 2
+			if len(idle) >= 3 && rnd.Intn(3) == 0 {
+				n = 3
+			}
+			p := rnd.Perm(len(idle))[:n]
+			var b actT
+			for _, i := range p {
+				b.Burst = append(b.Burst, mkCall(idle[i]))
+			}
+			return b, true
+		}
 		a := actT{Call: true, T: idle[rnd.Intn(len(idle))], Write: rnd.Intn(100) < 55}
 		if l.HasMulti() && rnd.Intn(100) < multiBias {
 			a.Multi = true
@@ -138,6 +169,18 @@ func replayChooser(acts []actT) chooser {
 		for i < len(acts) {
 			a := acts[i]
 			i++
+			if len(a.Burst) > 0 {
+				busy := false
+				for _, b := range a.Burst {
+					if _, ok := d.live[b.T]; ok {
+						busy = true
+					}
+				}
+				if busy {
+					continue
+				}
+				return a, true
+			}
 			if a.Call {
 				if _, busy := d.live[a.T]; busy {
 					continue
@@ -204,7 +247,9 @@ func emitRun(e *vh.Env, c runCfg, l lockerAPI, rounds []roundT, note string, cla
 func liveAfter(rounds []roundT) int {
 	n := 0
 	for _, r := range rounds {
-		if r.Act.Call {
+		if len(r.Act.Burst) > 0 {
+			n += len(r.Act.Burst)
+		} else if r.Act.Call {
 			n++
 		} else if !r.Obs.Blocked {
 			n--
